@@ -278,6 +278,10 @@ def w_in_playback(props=None, case=None):
                 from_sub = [oc[1] == t['outcome'][1] for t in sub_calls if t['outcome'][0] == 'raise']
                 cl = z3.Or(z3.And(subst == NONE, TYP(Val.addr(oc[1])) == K('RecordingKeyError')), *from_sub)
                 obl.append(Obl('C02/%s/missing/key_error_only_if_no_substitute' % U, 'C02', s, cl, oc))
+    # C08 (each recording's verdict and replay are its own) rests on the replay-step clauses of the input wrapper as well
+    for o_ in obl:
+        if 'C01' in o_.props and 'C08' not in o_.props and not o_.finding:
+            o_.props = o_.props + ('C08',)
     return finish(ex, paths, obl, info, fr=fr)
 
 
@@ -511,6 +515,8 @@ def table_lookup(spec):
             # hit: some RecordingParameters object registered for the class; miss: the default passed by the caller
             sH = st.copy(); p = spec.sym_params(sH, 'tblparams'); sH.g['param_source'] = 'table'
             st.g['param_source'] = 'default'
+            for s_ in (sH, st):
+                s_.g['table_keys'] = s_.g.get('table_keys', []) + [pos[0]]
             return [(sH, ('val', p)), (st, ('val', pos[1]))]
         return _orig(ex, st, cls, name, recv, pos, kw, node, star, dstar)
     spec.objmethod = objmethod
@@ -600,6 +606,12 @@ def w_op_recording(props=None, case=None):
             a0 = s.g['old']['seq'][Val.addr(fr['args'])][0]
             opc = z3.If(Val.bv(fr['class_function']), a0, Val.cls(TYP(Val.addr(a0))))
             obl.append(Obl('C18/%s/operation_class' % U, 'C18', s, m[key('OPERATION_CLASS')] == opc, oc))
+        # the recording parameters are looked up under the operation's CLASS OBJECT (as recording_params registers them): not under a name or
+        # anything else two classes could share
+        a0_ = s.g['old']['seq'][Val.addr(fr['args'])][0]
+        opc_ = z3.If(Val.bv(fr['class_function']), a0_, Val.cls(TYP(Val.addr(a0_))))
+        for k_ in s.g.get('table_keys', []):
+            obl.append(Obl('C17/%s/recording_parameters_looked_up_under_the_operation_class' % U, ('C17', 'C11'), s, k_ == opc_, oc))
     return finish(ex, paths, obl, info, fr=fr)
 
 
@@ -682,6 +694,10 @@ def play(props=None):
             obl.append(Obl('C01/%s/result/original_recording_is_fetched' % U, 'C01', s, s.rd(p, 'original_recording') == s.g['fetched'], oc))
             obl.append(Obl('C03/%s/result/recorded_outputs_extracted_from_fetched' % U, 'C03', s,
                            z3.And(z3.BoolVal(len(ext) == 1), s.rd(p, 'recorded_outputs') == ext[0][1], ext[0][2] == s.g['fetched']) if ext else z3.BoolVal(False), oc))
+            # C11: what play() hands out of the recording are COPIES (extraction without direct access): mutating a recorded output obtained from
+            # the Playback object must not rewrite the recording it came from
+            obl.append(Obl('C11/%s/result/recorded_outputs_are_copies_not_the_recordings_own_objects' % U, ('C11', 'C03'), s,
+                           z3.Not(truthy(ext[0][3])) if ext and len(ext[0]) > 3 else z3.BoolVal(False), oc))
             # playback outputs = what was appended during this call (the list object handed out is no longer the recorder's list)
             obl.append(Obl('C03/%s/result/playback_outputs_detached_from_recorder' % U, 'C03', s,
                            s.rd(p, 'playback_outputs') != s.rd(selfv, '_playback_outputs'), oc))
